@@ -528,6 +528,10 @@ func rulesRepl(c *Ctx) {
 					return
 				}
 				checkedF = true
+				// the fetch step reports its failures: inside it (and its synchronous same-package
+				// callees, two levels) no failing branch of an errorful call returns a nil error —
+				// the worker would record the item as fetched although its fetch failed
+				c.fetchStepReportsFailures(g, name)
 				ts := errTests(ev)
 				cleanup := func(in ssa.Instruction) bool {
 					cl, ok := in.(ssa.CallInstruction)
@@ -1425,4 +1429,66 @@ func (c *Ctx) fetchBatchSize(fns []*ssa.Function) (int64, string, bool) {
 		})
 	}
 	return res, where, found && okAll
+}
+
+
+// fetchStepReportsFailures: Q1 clause. In the worker's fetch step g and its synchronous same-package
+// callees (two levels) that return an error, a return of a constant nil error placed inside the
+// failing branch of an errorful call (dominated by it) turns a failed fetch into a success.
+func (c *Ctx) fetchStepReportsFailures(g *ssa.Function, state string) {
+	seen := map[*ssa.Function]bool{}
+	var walk func(h *ssa.Function, d int)
+	walk = func(h *ssa.Function, d int) {
+		if h == nil || h.Blocks == nil || seen[h] || d > 2 || h.Pkg != g.Pkg {
+			return
+		}
+		res := h.Signature.Results()
+		if res.Len() == 0 || !isErrorType(res.At(res.Len()-1).Type()) {
+			return
+		}
+		seen[h] = true
+		cons := "tasks#" + state + "-after-failed-fetch#reported-by@" + fnKey(h)
+		var bad ssa.Instruction
+		n := 0
+		eachCall(h, func(call ssa.CallInstruction) {
+			if _, isGo := call.(*ssa.Go); isGo {
+				return
+			}
+			if _, isDefer := call.(*ssa.Defer); isDefer {
+				return
+			}
+			ev := errResult(call)
+			if ev == nil {
+				return
+			}
+			n++
+			for _, t := range errTests(ev) {
+				if len(t.Fail.Preds) != 1 {
+					continue
+				}
+				for _, b := range h.Blocks {
+					if !t.Fail.Dominates(b) || len(b.Instrs) == 0 {
+						continue
+					}
+					r, ok := b.Instrs[len(b.Instrs)-1].(*ssa.Return)
+					if !ok || len(r.Results) == 0 {
+						continue
+					}
+					if k, ok := r.Results[len(r.Results)-1].(*ssa.Const); ok && k.IsNil() && bad == nil {
+						bad = r
+					}
+				}
+			}
+			walk(call.Common().StaticCallee(), d+1)
+		})
+		if n == 0 {
+			return
+		}
+		if bad != nil {
+			c.bad("Q1", cons, bad.Pos(), fmt.Sprintf("inside the worker's fetch step a failing branch returns a nil error: the worker then records the item in state %s as if it had been fetched, and that state blocks AddHashToQueue/AddEntryToQueue (the lookup ignores the state) — a hash whose fetch was cancelled or failed is never fetched again, even when announced again after the peers reconnect", state))
+		} else {
+			c.ok("Q1", cons, h.Pos(), fmt.Sprintf("no failing branch of the %d errorful call(s) in this part of the fetch step returns a nil error", n))
+		}
+	}
+	walk(g, 0)
 }
